@@ -6,6 +6,7 @@ cd /verif || exit 2
 if [ -n "$(git -C /repo status --porcelain --untracked-files=no)" ]; then echo "/repo has uncommitted changes; refusing"; exit 2; fi
 trap 'git -C /repo checkout -- . ; git -C /repo clean -fdq -- src tests' EXIT INT TERM
 NAMES="$*"
+: > seeded/matrix.new
 [ -z "$NAMES" ] && NAMES=$(ls seeded | grep -v '\.md$')
 TIER=${TIER:-quick}
 for n in $NAMES; do
@@ -20,5 +21,7 @@ for n in $NAMES; do
     if [ $rc -eq 1 ]; then hits="$hits $c"; elif [ $rc -ne 0 ]; then hits="$hits $c(rc=$rc)"; fi
   done
   git -C /repo checkout -- .
-  echo "SEEDED $n breaks=$prop detected_by:${hits:- NONE}"
+  echo "SEEDED $n breaks=$prop detected_by:${hits:- NONE}" | tee -a seeded/matrix.new
 done
+
+[ -z "$*" ] && mv seeded/matrix.new seeded/matrix.txt || true
